@@ -100,11 +100,31 @@ _ACTIVE_LOOP = None
 _EPOCH = _dt.datetime(2024, 1, 1, tzinfo=_dt.timezone.utc)
 
 
+WALL_OFFSET = 0.0          # seconds the wall clock has been stepped (NTP correction, resume from suspend) during the current run
+import time as _time
+REAL_TIME = _time.time
+
+
 def set_active(loop, epoch: _dt.datetime | None = None) -> None:
-    global _ACTIVE_LOOP, _EPOCH
+    global _ACTIVE_LOOP, _EPOCH, WALL_OFFSET
     _ACTIVE_LOOP = loop
+    WALL_OFFSET = 0.0
     if epoch is not None:
         _EPOCH = epoch
+
+
+def wall_step(seconds: float) -> None:
+    """The system's wall clock jumps by ``seconds`` (the loop's monotonic clock does not)."""
+    global WALL_OFFSET
+    WALL_OFFSET += seconds
+
+
+def virtual_time() -> float:
+    """time.time() while a virtual loop is running: epoch + virtual seconds + wall-clock steps; the real clock otherwise."""
+    loop = _ACTIVE_LOOP
+    if loop is None or loop.is_closed():
+        return REAL_TIME()
+    return _EPOCH.timestamp() + loop.time() + WALL_OFFSET
 
 
 class VDatetime(_dt.datetime):
@@ -113,7 +133,7 @@ class VDatetime(_dt.datetime):
     @classmethod
     def now(cls, tz=None):  # type: ignore[override]
         loop = _ACTIVE_LOOP
-        secs = loop.time() if loop is not None else 0.0
+        secs = (loop.time() if loop is not None else 0.0) + WALL_OFFSET
         base = _EPOCH + _dt.timedelta(seconds=secs)
         r = cls(base.year, base.month, base.day, base.hour, base.minute,
                 base.second, base.microsecond, tzinfo=base.tzinfo)
@@ -134,6 +154,8 @@ def install_clock() -> None:
     import msmart.lan
     msmart.lan.datetime = VDatetime
     msmart.cloud.datetime = VDatetime
+    # time.time() read through the module attribute (the usual way) follows the virtual loop while one is running
+    _time.time = virtual_time
 
 
 def run(coro_fn, net=None, epoch=None, start: float = 0.0):
